@@ -12,7 +12,7 @@ CONFIG = dict(
     level="exploration",
     rule=("zip-format files saved with torch.save from generated models and state containers (modules, state "
           "dicts, nested dicts / lists / tuples of tensors of eight dtypes and several shapes, zero-size tensors, "
-          "shared storages, tied weights) x payload strings (a sink call carrying strings from the constant "
+          "shared storages, tied weights; pickle protocols 2-5 incl. model pickles split over several FRAMEs) x payload strings (a sink call carrying strings from the constant "
           "generator: ASCII, Latin-1, BMP, astral, quotes, backslashes, newlines, digits-only) x overwrite in "
           "{False, True}; PyTorchModelWrapper.inject_payload(..., injection='insertion') is run while file "
           "audit events are recorded; the output archive is diffed member by member against the input, its "
@@ -28,7 +28,7 @@ CONFIG = dict(
     min_nontrivial={"quick": 30, "thorough": 500},
     nshards={"quick": 4, "thorough": 8},
     timeout={"quick": 900, "thorough": 5400},
-    required_counters=("injections", "members_compared", "loads_compared"),
+    required_counters=("non_default_protocol_cases", "injections", "members_compared", "loads_compared"),
 )
 
 
@@ -47,7 +47,7 @@ def payload_texts(ctx):
 RAW_PAYLOADS = ["0", "1", "123", "None", "pass", "'cpu'", "'storage'", "''", "'weight'", "'0'", "...", "0x1f", "-7"]
 
 
-def run_case(ctx, mods, label, obj, text, overwrite, raw=False):
+def run_case(ctx, mods, label, obj, text, overwrite, raw=False, proto=None):
     torch, f, PyTorchModelWrapper = mods
     import vp_sink
     agg = ctx.agg
@@ -56,7 +56,10 @@ def run_case(ctx, mods, label, obj, text, overwrite, raw=False):
     for p in (src, out):
         if os.path.exists(p):
             os.remove(p)
-    torch.save(obj, src)
+    if proto is None:
+        torch.save(obj, src)
+    else:
+        torch.save(obj, src, pickle_protocol=proto)
     with open(src, "rb") as fh:
         src_bytes = fh.read()
     payload = text if raw else f"__import__('vp_sink').hit('C16', {text!r})"
@@ -64,7 +67,7 @@ def run_case(ctx, mods, label, obj, text, overwrite, raw=False):
     ntens = len(torchfiles.storage_partition(torch, obj))
     if not agg.case(key, ntens > 0, {"model": label, "payload": payload[:80], "overwrite": overwrite, "tensors": ntens}):
         return
-    w = {"model": label, "payload": payload[:200], "overwrite": overwrite}
+    w = {"model": label, "payload": payload[:200], "overwrite": overwrite, "pickle_protocol": proto}
     with zipfile.ZipFile(src) as z:
         in_names = z.namelist()
         in_members = {n: z.read(n) for n in in_names}
@@ -200,6 +203,20 @@ def run_shard(ctx):
                 continue
             if i % ctx.nshards == ctx.shard:
                 run_case(ctx, mods, label, obj, text, bool(i % 2), raw=True)
+    # other pickle protocols of torch.save, incl. model pickles large enough to be split over several FRAMEs
+    big = [("big_pickle_few_tensors", {"w": torch.ones(2, 2), "meta": {("key_%05d" % k) * 4: k for k in range(4000)}}),
+           ("many_small_tensors", {"t%d" % k: torch.full((1,), float(k)) for k in range({"quick": 1300, "thorough": 2600}[ctx.tier])})]
+    small = list(torchfiles.models(torch, asm.rng_for(ctx.seed, "c16proto"), 0))
+    for label, obj in big + small:
+        for proto in (2, 3, 4, 5):
+            if proto in (2, 3) and (label, obj) not in big:
+                continue
+            i += 1
+            if ctx.tier == "quick" and (label, obj) not in big and pick.random() > 0.35:
+                continue
+            if i % ctx.nshards == ctx.shard:
+                run_case(ctx, mods, f"{label}@p{proto}", obj, texts[i % len(texts)], bool(i % 2), proto=proto)
+                ctx.agg.count("non_default_protocol_cases")
     for p in ("c16_model.pt", "c16_injected.pt"):
         pp = os.path.join(ctx.scratch, p)
         if os.path.exists(pp):
